@@ -78,11 +78,6 @@ def taggedIdx (st : St) (raw : String) : List Nat :=
 
 def showTuple (l : List Nat) : String := ",".intercalate (l.map toString)
 
-def swapList (l : List Nat) (i j : Nat) : List Nat :=
-  match l[i]?, l[j]? with
-  | some x, some y => (l.set i y).set j x
-  | _, _ => l
-
 def handle (st : St) (ws : List String) : St × String :=
   match ws with
   | "def" :: fws =>
@@ -129,7 +124,9 @@ def handle (st : St) (ws : List String) : St × String :=
       | "swap", [i, j, n] =>
         match i.toNat?, j.toNat?, n.toNat? with
         | some i, some j, some n =>
-          if i < n && j < n then (st, s!"len:{n} {showTuple (swapList (List.range n) i j)}") else (st, "panic")
+          match swap (List.range n) i j with
+          | some l => (st, s!"len:{l.length} {showTuple l}")
+          | none => (st, "panic")
         | _, _, _ => (st, "bad-op")
       | _, _ => (st, "bad-op")
   | _ => (st, "bad-op")
